@@ -16,7 +16,17 @@ spies installed through the hook accounts.(*Config).VerifWrap (and once more wit
 any hook).  AuthTrace.tla validates the recorded calls against Auth.tla: a reporting pass names
 every rejected call, then the accepted calls are checked again with the property as
 plain TLC invariants (strict).  A rejected call is a divergence of the real
-code from the property."""
+code from the property.
+
+A second binding ("served") closes the gap the hand-made wiring leaves: harness/authz/served.go
+starts the REAL server (server.NewGripServer + Serve on loopback ports, kvgraph on badger, the
+real handlers, spies put on conf.Server.Accounts before the server is built) and calls every
+method over gRPC on the TCP listener and over HTTP/JSON on the gateway mux (URL, verb, body from
+the google.api.http options).  Which interceptors Serve puts on the grpc.Server and which
+Direct*Interceptor options it gives each in-process gateway client is then in the path.
+HandlerRan / ElemForwarded are inferred from the reply and from the store (see served.go); the
+same AuthTrace.tla judges the calls.  A divergence that only the live server shows is reported
+with the transport in its signature."""
 import json, os
 from concurrent.futures import ThreadPoolExecutor
 
@@ -41,7 +51,7 @@ m = r.sub == p.sub && (r.obj == p.obj || p.obj ==  "*") && (r.act == p.act || p.
 PASSWORDS = {"alice": "pw-A1", "bob": "pw-B2", "root": "pw-R3"}
 CODES = {"OK": "ok", "Unauthenticated": "unauthenticated", "PermissionDenied": "permission_denied", "NO_REPLY": "noreply"}
 # outcomes that say something about the harness or the machine (deadline of 20 s per call), not about grip
-TOOL_CODES = ("TIMEOUT", "NO_CLIENT_METHOD", "BAD_KIND", "TOO_MANY", "DeadlineExceeded", "Canceled", "Unavailable",
+TOOL_CODES = ("TIMEOUT", "TOOL", "NO_CLIENT_METHOD", "BAD_KIND", "TOO_MANY", "DeadlineExceeded", "Canceled", "Unavailable",
               "ResourceExhausted")
 ALL_CREDVS = ["none", "wrong", "right", "otherpw", "unknown", "empty", "garbage", "bearer"]
 
@@ -218,8 +228,31 @@ def run(ctx):
     # ---- 2. configurations to run
     cfgs = []
 
-    def add(mode, spied, policy=(), creds=None):
-        cfgs.append(dict(i=len(cfgs), mode=mode, spied=spied, policy=[list(r) for r in policy], creds=creds or base_creds))
+    def add(mode, spied, policy=(), creds=None, **kw):
+        cfgs.append(dict(i=len(cfgs), mode=mode, spied=spied, policy=[list(r) for r in policy], creds=creds or base_creds, **kw))
+
+    # the live server first (its configurations take longest): this binding is about the wiring in
+    # server.Serve, not about the interceptor logic, so the quick tier takes a smaller family
+    perop5 = [p for p in policies if len(p) == 5][0]
+    wildop = [p for p in policies if len(p) == 2 and all(r[2] == "*" for r in p) and not all(r[1] == "*" for r in p)][0]
+    if thorough:
+        sv = dict(served=True)
+        add("open", True, **sv); add("open", False, **sv); add("basic", True, **sv); add("basic", False, **sv)
+        for p in [q for q in policies if len(q) != 1]:
+            add("casbin", True, p, **sv)
+        add("casbin", False, perop5, **sv)
+        add("basic", True, (), ALL_CREDVS, **sv)
+        add("casbin", True, perop5, ALL_CREDVS, **sv)
+        # the default deployment: plugins disabled, the Configure service is a stub - it is exposed all the same
+        add("basic", True, **dict(sv, enable_plugins=False)); add("casbin", True, perop5, **dict(sv, enable_plugins=False))
+    else:
+        sv = dict(served=True, users=[u for u in users if u != "root"], graphs=[g for g in graphs if g in ("g1", "g2")],
+                  bulk=[b for b in bulk if tuple(b) in (("g1", "g2", "g3"), ("g2", "g1", "g2"), ())])
+        add("open", True, **sv); add("basic", True, **sv)
+        add("casbin", True, perop5, **sv); add("casbin", True, [], **sv); add("casbin", True, wildop, **sv)
+        add("casbin", False, perop5, **sv)
+        add("basic", True, **dict(sv, enable_plugins=False))
+    nserved = len(cfgs)
 
     add("open", True); add("open", False); add("basic", True); add("basic", False)
     for p in policies:
@@ -236,7 +269,7 @@ def run(ctx):
                  graphs=graphs, bulk=bulk, creds=base_creds)
     inp = ctx.write_ndjson("authz_in.ndjson", [setup] + cfgs)
     outp = inp.replace("_in", "_out")
-    ctx.harness(["authz", "-j", "8", "-timeout", "600s"], input_path=inp, output_path=outp, timeout=1500)
+    ctx.harness(["authz", "-j", "8", "-timeout", "900s"], input_path=inp, output_path=outp, timeout=2400)
     outs = {o["i"]: o for o in ctx.read_ndjson(outp) if "i" in o}
     if len(outs) != len(cfgs):
         raise Inconclusive("harness answered %d of %d configurations" % (len(outs), len(cfgs)))
@@ -245,8 +278,13 @@ def run(ctx):
     blocks = []
     cnum = 0
     seen = set()
+    served = dict(calls=0, configurations=0, refused_store_unchanged=0, handler_runs_inferred=0, store_effects=0,
+                  never_answered=0, self_calls_of_the_server_ignored=0, serve_did_not_return=0, http_rules={})
     for cfg in cfgs:
         o = outs[cfg["i"]]
+        if "tool_err" in o:
+            # port taken, server not up in time, deadline, a request the HTTP layer rejected: tool trouble
+            raise Inconclusive("live server, configuration %s: %s" % ({k: cfg[k] for k in ("mode", "spied", "policy")}, o["tool_err"]))
         for bad in ("err", "crash", "hang", "died", "bad", "marshal_err"):
             if bad in o:
                 raise Inconclusive("harness %s on configuration %s: %s\n%s" % (bad, {k: cfg[k] for k in ("mode", "spied", "policy")},
@@ -270,10 +308,28 @@ def run(ctx):
             want.add((call["t"], call["m"]))
             seen.add((cfg["mode"], polkey([dict(u=a, g=b, op=c) for a, b, c in cfg["policy"]]), call["m"], call["user"],
                       call["cred"], call["g"], tuple(call["elems"])))
-        if want != {(t, m) for t in ("grpc", "gateway") for m in methods}:
-            raise Inconclusive("not every method was invoked over both transports")
+        transports = ("served-grpc", "served-http") if cfg.get("served") else ("grpc", "gateway")
+        if want != {(t, m) for t in transports for m in methods}:
+            raise Inconclusive("not every method was invoked over both transports %s" % (transports,))
+        if cfg.get("served"):
+            if o.get("stray"):
+                raise Inconclusive("live server: %d consultations could not be attributed to the call in flight" % o["stray"])
+            served["configurations"] += 1
+            served["calls"] += len(calls)
+            served["store_effects"] += o.get("effects", 0)
+            served["never_answered"] += o.get("leaked", 0)
+            served["self_calls_of_the_server_ignored"] += o.get("foreign", 0)
+            served["serve_did_not_return"] += 1 if o.get("serve_stuck") else 0
+            served["http_rules"] = o.get("http_rules", {})
+            for call in calls:
+                code = call["ev"][-1]["code"]
+                if code in ("Unauthenticated", "PermissionDenied") and not call.get("effect"):
+                    served["refused_store_unchanged"] += 1
+                if any(e["e"] == "HandlerRan" for e in call["ev"]):
+                    served["handler_runs_inferred"] += 1
         blocks.append((cfg, calls))
-    ctx.log("recorded %d calls in %d configurations" % (cnum, len(cfgs)))
+    ctx.log("recorded %d calls in %d configurations (%d calls against the live server in %d configurations)"
+            % (cnum, len(cfgs), served["calls"], served["configurations"]))
     corrupt = os.environ.get("VERIF_C05_CORRUPT")
     if corrupt:
         # self-test of the binding: falsify one recorded field of one refused call; the check has to report it
@@ -348,51 +404,82 @@ def run(ctx):
             alts = rootcause[(call["m"], hc)]
             cause = max(sorted(alts), key=lambda x: alts[x])
         final.append((cfg, call, causes, v, cause))
+    # A divergence that only the live server shows (never the hand-wired interceptors) is a defect of
+    # the wiring in server.Serve or of the layers only that binding has: its signature carries the
+    # transport.  One that both bindings show keeps the plain signature (one defect -> one signature).
+    where = {}
+    for cfg, call, causes, v, cause in final:
+        where.setdefault((call["m"], cause), set()).add(call["t"])
+    QUAL = {("served-http",): (" [live server: http gateway]", " - only on the live server, over the HTTP gateway (wiring of the in-process gateway clients in server.Serve)"),
+            ("served-grpc",): (" [live server: grpc]", " - only on the live server, over its gRPC port (interceptors server.Serve puts on the grpc.Server)"),
+            ("served-grpc", "served-http"): (" [live server]", " - only on the live server (server.Serve), over gRPC and the HTTP gateway")}
+
+    def qual(m, cause):
+        return QUAL.get(tuple(sorted(where[(m, cause)])), ("", ""))
+
+    def replay(cfg, call, causes, v):
+        keys = ("t", "m", "user", "cred", "credv", "g", "elems") + (("raw", "effect") if cfg.get("served") else ())
+        r = dict(config=dict(mode=cfg["mode"], policy=cfg["policy"], spied=cfg["spied"], binding="served" if cfg.get("served") else "wired"),
+                 call={k: call[k] for k in keys if k in call},
+                 events=call["ev"], causes=causes, failed_invariants=sorted(v["inv"]))
+        if cfg.get("served"):
+            r["http_rule"] = served["http_rules"].get(call["m"])
+        return r
+
     # a cause shared by three or more methods of one RPC kind is one defect of that interceptor path
     shared = {}
     for cfg, call, causes, v, cause in final:
-        shared.setdefault((methods[call["m"]]["kind"], cause), set()).add(call["m"])
+        shared.setdefault((methods[call["m"]]["kind"], cause, qual(call["m"], cause)[0]), set()).add(call["m"])
     for cfg, call, causes, v, cause in final:
         nrej += 1
         kind = methods[call["m"]]["kind"]
-        group = sorted(shared[(kind, cause)])
+        qs, qw = qual(call["m"], cause)
+        group = sorted(shared[(kind, cause, qs)])
         if len(group) >= 3:
-            ctx.diverge("auth %s-methods %s" % (kind, cause), "%s: %s" % (", ".join(group), WHAT.get(cause, cause)),
-                        dict(config=dict(mode=cfg["mode"], policy=cfg["policy"], spied=cfg["spied"]),
-                             call={k: call[k] for k in ("t", "m", "user", "cred", "credv", "g", "elems")},
-                             events=call["ev"], causes=causes, failed_invariants=sorted(v["inv"])))
+            ctx.diverge("auth %s-methods %s%s" % (kind, cause, qs), "%s: %s%s" % (", ".join(group), WHAT.get(cause, cause), qw),
+                        replay(cfg, call, causes, v))
             continue
-        extra = " (in-process gateway client)" if cause == "call-never-answered" and call["t"] == "gateway" else ""
-        ctx.diverge("auth %s %s" % (call["m"], cause), "%s: %s%s" % (call["m"], WHAT.get(cause, cause), extra),
-                    dict(config=dict(mode=cfg["mode"], policy=cfg["policy"], spied=cfg["spied"]),
-                         call={k: call[k] for k in ("t", "m", "user", "cred", "credv", "g", "elems")},
-                         events=call["ev"], causes=causes, failed_invariants=sorted(v["inv"])))
+        extra = " (in-process gateway client)" if cause == "call-never-answered" and call["t"] in ("gateway", "served-http") else ""
+        ctx.diverge("auth %s %s%s" % (call["m"], cause, qs), "%s: %s%s%s" % (call["m"], WHAT.get(cause, cause), extra, qw),
+                    replay(cfg, call, causes, v))
     for x, per in sorted(soft.items()):
         ctx.notes.append("not a violation, %s: %s" % (x, ", ".join("%s x%d" % kv for kv in sorted(per.items()))))
-    for cfg, calls in blocks:
-        if cfg["mode"] == "casbin" and cfg["spied"] and len(cfg["policy"]) == 5:
+    for cfg, calls in sorted(blocks, key=lambda b: bool(b[0].get("served"))):
+        if cfg["mode"] == "casbin" and cfg["spied"] and len(cfg["policy"]) == 5 and cfg["creds"] == base_creds:
             for call in calls:
                 if call["m"] in ("Query/GetVertex", "Edit/BulkAdd", "Job/ViewJob") and call["cred"] == "right" and call["user"] == "alice":
-                    ctx.sample(dict(policy=cfg["policy"], call={k: call[k] for k in ("t", "m", "user", "cred", "g", "elems")},
+                    if cfg.get("served") and not (call["g"] == "g1" and call["t"] == "served-http" or call["elems"] == ["g1", "g2", "g3"]):
+                        continue
+                    ctx.sample(dict(policy=cfg["policy"], call={k: call[k] for k in ("t", "m", "user", "cred", "g", "elems", "raw") if k in call},
                                     events=[{k: v for k, v in e.items() if v not in ("", 0, False) or (k == "ok" and e["e"] in ("Validate", "Enforce"))}
                                             for e in call["ev"]],
-                                    verdict=verdicts[call["c"]]), limit=6)
+                                    verdict=verdicts[call["c"]]), limit=10 if cfg.get("served") else 6)
     nontrivial = len({s for s in seen if s[0] == "casbin" and s[4] == "right" and s[3] != "root"})
     ctx.cov.update(evaluations=cnum, traces_validated_against_impl=cnum, distinct_nontrivial=nontrivial, exhaustive=True,
                    rejected_calls=nrej, configurations=len(cfgs), policies=len(policies), methods=len(methods),
                    distinct_calls=len(seen), canary_corruptions_recognised=ncanary,
+                   served={k: v for k, v in served.items() if k != "http_rules"},
+                   served_calls_validated=served["calls"], served_configurations=served["configurations"],
                    rule="every method of the 4 service descriptors (%d) x users %s x credential states (none/wrong/right%s) x request graphs %s "
-                        "(bulk: element sequences %s) x transport (grpc server over bufconn, direct gateway clients) x configuration "
+                        "(bulk: element sequences %s) x transport (grpc server over bufconn, direct gateway clients; and, against the live "
+                        "server started by server.Serve, its gRPC port and its HTTP gateway - there %s) x configuration "
                         "(no accounts, basic auth only, basic auth + each of %d casbin policies: allow-all, deny-all, per-operation, "
                         "wildcard graph, wildcard operation%s), with spies and without; distinct = calls up to transport/spies; "
                         "non-trivial = policy-decided ones (casbin configured, right credentials, user other than root)"
                         % (len(methods), users, ", 5 more malformed/foreign variants in 3 configurations" if thorough else "",
-                           graphs, bulk, len(policies), ", every single-rule policy" if thorough else ""))
+                           graphs, bulk,
+                           "the same family in %d configurations" % served["configurations"] if thorough else
+                           "users alice/bob, graphs g1/g2, 3 bulk sequences in %d configurations: no accounts, basic auth, casbin "
+                           "per-operation / deny-all / wildcard-operation with spies, per-operation without" % served["configurations"],
+                           len(policies), ", every single-rule policy" if thorough else ""))
     ctx.assumptions += [
         "the casbin library and its matcher evaluation are trusted; the policy semantics in Auth.tla!PolAllows is the matcher of the project's model file (test/model.conf), including the built-in superuser 'root'",
-        "service handlers are stubs: 'has no effect' is observed as 'the handler is not invoked / no bulk element reaches it', not on a store",
-        "the HTTP layer of the gateway (grpc-gateway runtime: header to metadata mapping, routing) is not exercised: the direct clients are driven with the metadata the runtime would produce",
-        "with plugins disabled server.Serve registers a Configure stub (nullPluginServer) on the gateway without interceptors; only the EnablePlugins wiring is modelled",
+        "hand-wired binding: service handlers are stubs, 'has no effect' is observed as 'the handler is not invoked / no bulk element reaches it'; the direct clients are driven with the metadata the grpc-gateway runtime would produce",
+        "live-server binding (server.Serve on loopback ports, real handlers, kvgraph on badger): HandlerRan is inferred - a reply other than Unauthenticated/PermissionDenied (HTTP 401/403) means the handler ran, which is sound for interceptors that either refuse with one of these codes or return the handler's result (no handler of the server package produces these codes; the interceptors' own 'Unknown method'/'Request error'/'Unable to get graph' refusals are recognised by their text); additionally any call after which the store (graphs, vertices, edges, indices, job directories, plugin work directories) differs has run its handler; bulk elements that reached the handler are the ones found in the store afterwards (order not observable: taken as stream order)",
+        "live-server binding: a handler that ran for a refused READ call and whose result was then replaced by an authentication error would not be seen (no effect on the store, no data returned)",
+        "live-server binding: consultations made by the server's calls to itself (getGraph dials its own RPC port without credentials: GetMapping, updateGraphMap) carry no call tag and are left out of the trace; Edit/AddMapping is called last because with no accounts that self-call succeeds and re-routes the graph to a gripper driver",
+        "live-server binding: 'a gateway BulkAdd is never answered' is decided from the goroutines of the server process (gateway handler blocked in CloseAndRecv while no goroutine started by EditDirectClient.BulkAdd is left), not from a timer",
+        "with plugins disabled server.Serve registers a Configure stub (nullPluginServer) on the gateway without interceptors; only the EnablePlugins wiring is modelled (the live server runs with EnablePlugins); the graphql/endpoint plugin clients of Serve need a Go plugin file and are not started; ReadOnly/NoJobs servers are not run",
         "ProxyAuth (trusted header) is not exercised; BasicAuth is, with 8 credential variants in the thorough tier",
         "the error code of a refusal is left open (any non-OK status); a call the policy grants may still be refused when accounts are configured ('only if'), this is counted in notes",
         "consultations seen by the spies refine the signature of a divergence; a verdict needs a contradiction with credentials/policy/what the client sent",
